@@ -561,6 +561,7 @@ type View struct {
 	Table   map[string]TableLock
 	File    map[string][]string
 	FileErr string
+	Admin   []string // what LockServer.Locks() returns - the listing the admin tool and the IPC service show - "name/key/size", sorted
 }
 type TableLock struct {
 	Size int32
@@ -588,6 +589,11 @@ func (im *Impl) holdsLine(m map[string][]cl.Lock) (string, map[string][]string) 
 func (im *Impl) Snapshot() View {
 	v := View{}
 	v.L, v.Listing = im.holdsLine(im.LS.VerifSessionLocks())
+	v.Admin = []string{}
+	for _, l := range im.LS.Locks() {
+		v.Admin = append(v.Admin, fmt.Sprintf("%s/%s/%d", Tok(l.Name()), Tok(im.Canon(l.Key())), l.Size()))
+	}
+	sort.Strings(v.Admin)
 	tparts := []string{}
 	v.Table = map[string]TableLock{}
 	for _, l := range im.LS.VerifManager().VerifTable() {
